@@ -1,8 +1,8 @@
 SPECIFICATION Spec
 CONSTANTS
-  Programs <- AllPrograms
+  Programs <- FamilyCycNeg
   QuerySeqs <- QS3
-  Permute = FALSE
+  Permute = TRUE
   CheckOnTableHit = FALSE
   RepairFalseResult = FALSE
 VIEW view
